@@ -73,6 +73,7 @@ def shards(tier, seed):
             for layout in LAYOUTS:
                 out.append(dict(func=func, engine=engine, layout=layout, tier=tier))
     out.sort(key=lambda s: 0 if s["engine"] in ("numba", "numbagg") else 1)
+    out.append(dict(leg="scan-args", tier=tier))
     return out
 
 
@@ -108,11 +109,60 @@ def reference(func, V, labels, axis, expected, fill, cache):
     return cache[key]
 
 
+def run_scan_args(res):
+    """groupby_scan's argument forms: every scan by name and as the documented Scan instance (same result), names of
+    reductions / unknown names / non-scan objects, engine / method / several axes / 2-D labels: ok or a clean refusal."""
+    import dask.array as da
+    import flox
+    import flox.aggregations as fa
+
+    V = np.array([[1.0, NAN, 3.0, -2.0, NAN, 5.0], [0.0, 1.0, NAN, NAN, 2.0, -1.0]])
+    lab = np.array([0.0, 1.0, 0.0, 1.0, 1.0, 0.0])
+    lab2 = np.stack([lab, lab[::-1]])
+    forms = [(n, n) for n in ("nancumsum", "ffill", "bfill")] + [("Scan:" + n, getattr(fa, n)) for n in ("nancumsum", "ffill", "bfill") if hasattr(fa, n)]
+    forms += [("reduction-name:sum", "sum"), ("reduction-name:nanmax", "nanmax"), ("unknown-name", "cumprod"), ("Aggregation-object", fa.sum_), ("callable", np.cumsum)]
+    byname = {}
+    for fname, func in forms:
+        for chunks, by, extra in itertools.product((None, (2, 2, 2), (6,), (1,) * 6), ("1d", "1d-dask", "2d"),
+                                                   ({}, dict(engine="numpy"), dict(method="map-reduce"), dict(axis=(-2, -1)), dict(dtype="float32"), dict(dtype=np.dtype("float32")))):
+            if by == "1d-dask" and chunks is None:
+                continue
+            arr = V if chunks is None else da.from_array(V, chunks=((2,), chunks))
+            byv = lab2 if by == "2d" else (da.from_array(lab, chunks=(chunks,)) if by == "1d-dask" else lab)
+            out = e1.call_scan(arr, byv, func=func, **extra)
+            res.evaluations += 1
+            res.states += 1
+            res.transitions += 1
+            cls = classify(out)
+            res.outcomes[f"{cls}:{out.exc}" if cls != "ok" else "ok"] += 1
+            case = dict(leg="scan-args", form=fname, chunks=list(chunks) if chunks else None, by=by, extra={k: (list(v) if isinstance(v, tuple) else v) for k, v in extra.items()})
+            tags = dict(leg2="scan-args", form=fname.split(":")[0], kind="internal", exc=out.exc, by=by, where=out.where)
+            if cls == "INTERNAL" or (out.kind == "refused" and out.exc == "ValueError" and out.origin not in ("flox", None) and out.where == "compute"):
+                res.violate("internal-error", case, out.brief(), "a result or ValueError / NotImplementedError raised by flox", tags=tags, size=10)
+                continue
+            res.compared += 1
+            if cls == "ok":
+                key = (fname.split(":")[-1], chunks, by, tuple(sorted((k, str(v)) for k, v in extra.items())))
+                r = np.asarray(out.result, dtype=float)
+                if not fname.startswith(("Scan:", "nancumsum", "ffill", "bfill")):
+                    res.violate("non-scan-accepted", case, dict(result=r), "a refusal: not a scan", tags=dict(tags, kind="accepted"), size=10)
+                    continue
+                if key in byname and (byname[key].shape != r.shape or rm.mismatch(byname[key], r, rtol=0).any()):
+                    res.violate("scan-instance-differs", case, dict(instance=r), dict(name=byname[key]), tags=dict(tags, kind="value"), size=10)
+                    continue
+                byname.setdefault(key, r)
+                res.nontrivial += 1
+    res.sample(dict(leg="scan-args", forms=[f for f, _ in forms]))
+    return res
+
+
 def run_shard(shard):
     import dask.array as da
 
     e1.reset_flox_caches()
     res = Result()
+    if shard.get("leg") == "scan-args":
+        return run_scan_args(res)
     func, engine, layout = shard["func"], shard["engine"], shard["layout"]
     labels, axis, grids = LAYOUTS[layout]
     shape = (2,) + labels.shape
@@ -226,6 +276,8 @@ def replay(payload):
 
     res = Result()
     c = payload["case"]
+    if c.get("leg") == "scan-args":
+        return run_scan_args(Result())
     labels, axis, grids = LAYOUTS[c["layout"]]
     V = values_for((2,) + labels.shape, c["func"])
     if c.get("eager"):
